@@ -729,3 +729,75 @@ def explain_lf(e0, c0, r0, e1, c1, r1, p0, p1, p2, s0, s1, sx):
 
 
 EXPLAIN["_lf"] = explain_lf
+
+
+# ------------------------------------------------------------------ C14: enumeration / completion order does not matter
+PERMS3 = [(0, 1, 2), (0, 2, 1), (1, 0, 2), (1, 2, 0), (2, 0, 1), (2, 1, 0)]
+
+
+def _perm_story(e0, c0, r0, e1, c1, r1, e2, c2, r2, pf, pl):
+    """Three files, three LICENSES entries; pf permutes the order in which files are enumerated / complete,
+    pl the order of the LICENSES listing.  The normalised report must equal the one for the identity order."""
+    files = []
+    for i, (e, c, r) in enumerate(((e0, c0, r0), (e1, c1, r1), (e2, c2, r2))):
+        # copyright fixed; a read error is possible for the last file only (keeps the space small)
+        files.append(((True if r else False) if i == 2 else False, True, _pick_from(e, EXPR_SYM)))
+    prov = {pid: 0 for pid in PROV_IDS}
+    prov.update({"MIT": 1, "GPL-3.0": 4, "Foo": 3})
+    pf = PERMS3[FIX["pf"]] if "pf" in FIX else PERMS3[_pick_from(pf, list(range(6)))]
+    pl = _pick_from(pl, PARAMS.get("listing_variants", [0, 1, 2]))
+
+    def run(perm_files, perm_listing):
+        lst, dirs = listing(prov)
+        head, tail = lst[0], lst[1:]
+        k = len(tail)
+        order = list(range(k))
+        if perm_listing:
+            # rotate / reverse the listing: 6 variants
+            order = [order, order[::-1], order[1:] + order[:1], order[2:] + order[:2], order[-1:] + order[:-1], order[::-1][1:] + order[::-1][:1]][perm_listing]
+        lst = [head] + [tail[i] for i in order]
+        FakePath._dirs = dirs
+        saved = (pj.Path, rp.Path, pj.glob.iglob)
+        pj.Path = FakePath
+        rp.Path = FakePath
+        pj.glob.iglob = lambda pattern, recursive=False: iter(lst)
+        try:
+            project = FakeProject(FakePath(ROOT), vcs_strategy=None, global_licensing=None, license_map=dict(BASE_MAP))
+            project._vf_files = [FakePath(FILES[i]) for i in perm_files]
+            project._vf_info = {Path(p): f for p, f in zip(FILES, files)}
+            project.licenses = project._find_licenses()
+            rep = rp.ProjectReport.generate(project, do_checksum=False, multiprocessing=False)
+            return observed(rep), sorted((k2, str(v)) for k2, v in project.licenses.items())
+        finally:
+            pj.Path, rp.Path, pj.glob.iglob = saved
+
+    base = run((0, 1, 2), 0)
+    other = run(pf, pl)
+    return base == other, {"files": files, "file_order": list(pf), "listing_variant": pl, "identity": base, "permuted": other}
+
+
+def _perm_pre(e0, e1, e2, pf, pl):
+    return _member(e0, EXPR_SYM) and _member(e1, EXPR_SYM) and _member(e2, EXPR_SYM) and (pf == 0 if "pf" in FIX else _member(pf, list(range(6)))) and _member(pl, PARAMS.get("listing_variants", [0, 1, 2]))
+
+
+def _perm(e0: int, c0: bool, r0: bool, e1: int, c1: bool, r1: bool, e2: int, c2: bool, r2: bool, pf: int, pl: int) -> bool:
+    """
+    pre: _perm_pre(e0, e1, e2, pf, pl)
+    post: _
+    """
+    return _perm_story(e0, c0, r0, e1, c1, r1, e2, c2, r2, pf, pl)[0]
+
+
+def _perm_reach(e0: int, c0: bool, r0: bool, e1: int, c1: bool, r1: bool, e2: int, c2: bool, r2: bool, pf: int, pl: int) -> bool:
+    """
+    pre: _perm_pre(e0, e1, e2, pf, pl)
+    post: False
+    """
+    return _perm_story(e0, c0, r0, e1, c1, r1, e2, c2, r2, pf, pl)[0]
+
+
+def explain_perm(*a):
+    return _perm_story(*a)[1]
+
+
+EXPLAIN["_perm"] = explain_perm
